@@ -143,7 +143,7 @@ def run(ctx):
             exhaustive=True,
             state_budget_per_program=budget,
         ),
-        assumptions=["ILVM core-op semantics, REPEAT horizon 50000 steps (never hit on terminating C loops)", "cref(strict) cross-validated against gcc and clang in this run"],
+        assumptions=["ILVM core-op semantics, REPEAT horizon 20000 steps (never hit on terminating C loops)", "cref(strict) cross-validated against gcc and clang in this run"],
     )
 
 
